@@ -16,7 +16,8 @@ const COVERED: &[(&str, &str, &str)] = &[
     ("rgb/rgb.rs", "3.0", "hue_points"),
     ("rgb/rgb.rs", "4.0", "hue_points"),
     ("rgb/rgb.rs", "5.0", "hue_points"),
-    ("color_difference.rs", "180.0", "ops::colours: opposite hues (Lab/Lch second colours at +180°)"),
+    ("color_difference.rs", "180.0", "ops::colours: hue pairs less / more than 180° apart and (full lattice) exactly opposite"),
+    ("color_difference.rs", "360.0", "ops::colours: hue pairs more than 180° apart whose sum is below (10° + 333°) and above (36.87° + 333°) 360°"),
 ];
 /// literals in scanned files that belong to functions this check does not call
 const NOT_EXERCISED: &[(&str, &str, &str)] = &[
